@@ -10,6 +10,7 @@ import (
 	"encoding/json"
 	"fmt"
 	"math"
+	"reflect"
 
 	stk "github.com/JesseCoretta/go-stackage"
 )
@@ -216,6 +217,47 @@ func (st *dfStats) walk(n *Node, d int) {
 	}
 }
 
+// nativeCondOf: the native Condition behind a value however it is typed
+func nativeCondOf(v any) (stk.Condition, bool) {
+	switch x := v.(type) {
+	case stk.Condition:
+		return x, x.IsInit()
+	case aCond:
+		return stk.Condition(x), stk.Condition(x).IsInit()
+	case sCond:
+		return stk.Condition(x), stk.Condition(x).IsInit()
+	case *aCond:
+		if x != nil {
+			return stk.Condition(*x), stk.Condition(*x).IsInit()
+		}
+	case *sCond:
+		if x != nil {
+			return stk.Condition(*x), stk.Condition(*x).IsInit()
+		}
+	}
+	return stk.Condition{}, false
+}
+
+// collectReadOnly: handles of every read-only Stack reachable from v
+func collectReadOnly(v any, depth int, acc *[]stk.Stack) {
+	if depth > 12 {
+		return
+	}
+	if s, ok := nativeOf(v); ok {
+		if s.IsReadOnly() {
+			*acc = append(*acc, s)
+		}
+		for i := 0; i < s.Len(); i++ {
+			e, _ := s.Index(i)
+			collectReadOnly(e, depth+1, acc)
+		}
+		return
+	}
+	if c, ok := nativeCondOf(v); ok {
+		collectReadOnly(c.Expression(), depth+1, acc)
+	}
+}
+
 func runDefrag(raw json.RawMessage) (*Result, error) {
 	var in DefragInput
 	if err := json.Unmarshal(raw, &in); err != nil {
@@ -226,6 +268,7 @@ func runDefrag(raw json.RawMessage) (*Result, error) {
 	}
 	var obsT string
 	var obsJ any
+	invariant := ""
 	panicked := false
 	func() {
 		defer func() {
@@ -238,7 +281,21 @@ func runDefrag(raw json.RawMessage) (*Result, error) {
 		if in.Root.T == "stack" {
 			root = in.Root.BuildStack()
 		}
+		// read-only Stacks anywhere below a writable root: no ancestor's Defrag may touch them
+		var ros []stk.Stack
+		collectReadOnly(root, 0, &ros)
+		var before []any
+		for _, s := range ros {
+			before = append(before, deepDump(s, 0))
+		}
 		root.Defrag(in.Args...)
+		for i, s := range ros {
+			if !reflect.DeepEqual(before[i], deepDump(s, 0)) && invariant == "" {
+				bj, _ := json.Marshal(before[i])
+				aj, _ := json.Marshal(deepDump(s, 0))
+				invariant = fmt.Sprintf("Defrag changed a read-only Stack: before=%s after=%s", trunc(string(bj), 300), trunc(string(aj), 300))
+			}
+		}
 		obsT, obsJ = observeDefrag(root, 0)
 	}()
 	var st dfStats
@@ -292,7 +349,7 @@ func runDefrag(raw json.RawMessage) (*Result, error) {
 		args = append(args, coqZ(a))
 	}
 	coq := fmt.Sprintf("(MkCase %s %s %s %s)", coqList(args), dfCoq(in.Root), obsT, coqBool(panicked))
-	return &Result{Coq: coq, Observed: obsJ, Tags: joinTags(tags), Nontrivial: st.moveNodes > 0}, nil
+	return &Result{Coq: coq, Observed: obsJ, Tags: joinTags(tags), Nontrivial: st.moveNodes > 0, Invariant: invariant}, nil
 }
 
 func limClass(m int) string {
@@ -513,6 +570,30 @@ func dfPreErr(n *Node, r *Rng, pct int) {
 	}
 }
 
+func dfHasRO(n *Node, root bool) bool {
+	if n == nil {
+		return false
+	}
+	if !root && n.T == "stack" && n.Opt&128 != 0 {
+		return true
+	}
+	for _, e := range n.Els {
+		if dfHasRO(e, false) {
+			return true
+		}
+	}
+	return dfHasRO(n.Ex, false)
+}
+
+// genDefragRO: the inputs of the defrag family that hold a read-only Stack below the root
+func genDefragRO(ctx *Ctx, emit func(any, string)) {
+	genDefrag(ctx, func(in any, src string) {
+		if di, ok := in.(DefragInput); ok && di.Root != nil && di.Root.Opt&128 == 0 && dfHasRO(di.Root, true) {
+			emit(in, src)
+		}
+	})
+}
+
 func genDefrag(ctx *Ctx, emit func(any, string)) {
 	r := ctx.Rng.Fork()
 	mk := func(args []int, root *Node) DefragInput { return DefragInput{Args: args, Root: root} }
@@ -606,6 +687,9 @@ func genDefrag(ctx *Ctx, emit func(any, string)) {
 		opt := []int{0, 0, 16, 32, 48}[r.Intn(5)]
 		inner := dfFlat(p, dfKinds[r.Intn(len(dfKinds))], opt)
 		inner.A = dfAliases[r.Intn(len(dfAliases))]
+		if r.Pct(15) {
+			inner.Opt |= 128 // read-only: no ancestor's Defrag may touch it, however it is reached
+		}
 		a := dfAliases[r.Intn(len(dfAliases))]
 		root := &Node{T: "stack", Kind: dfKinds[r.Intn(len(dfKinds))], Opt: []int{0, 0, 16, 32}[r.Intn(4)]}
 		q := dfRandPattern(r, r.Intn(7))
@@ -668,6 +752,8 @@ func genDefrag(ctx *Ctx, emit func(any, string)) {
 }
 
 func init() {
+	register(&Family{Name: "defragro", Gen: genDefragRO, Run: runDefrag,
+		Rule: "the nesting part of the defrag family (structured and random trees with read-only nodes, 15% of the inner stacks read-only, held directly or as a Condition's expression) run for its harness invariant only: every read-only Stack reachable from the root is dumped (whole hidden state) through its own handle before and after root.Defrag and must be identical. non-trivial = some node has to move"})
 	register(&Family{Name: "defrag", Gen: genDefrag, Run: runDefrag,
 		Rule: "witnesses of the refuted theorems; ALL nil/non-nil patterns of length 0..9 (quick) / 0..12 (thorough) x limit {default,2,5} x {none,negative,forward,both} index options; random patterns of length 13..120 (5 textures) x random limits (default, <=0, 1..12, 40..69, MaxInt, MinInt, two arguments); patterns nested in Stacks / Condition expressions / aliases (7 shapes); random trees depth<=4 with nil elements, read-only, mutex, capacity, alias nodes, plus a malformed stream (zero Stack/Condition elements, Condition in Condition, zero root). Non-trivial = some Stack node holds a non-nil element after a nil one (a relocation must happen)."})
 }
